@@ -55,7 +55,7 @@ ADD = {
 
 # workloads added after the ninth round (DESIGN.md 14.13)
 UNW = "Unwinding histories: a user callback or a trait impl of the element type panics in the middle of a library call, the caller catches it and goes on; "
-VAR = " ./check repeats the sequential monitors with the harness built for elements of 164 and 4236 bytes and with cargo profile `plain` (no debug assertions, wrapping arithmetic)."
+VAR = " ./check repeats the sequential monitors with the harness built for elements of 8, 164 and 4236 bytes (default 16) and with cargo profile `plain` (no debug assertions, wrapping arithmetic)."
 VARP = " ./check repeats the sequential monitors with cargo profile `plain` (no debug assertions, wrapping arithmetic)."
 ADD9 = {
  "C01": UNW + "after a Clone panic under a read lock an ordinary set() must still be delivered to every subscriber. An end of stream while an owner lives is reported here too (ready without an unobserved update), e.g. for observables built through Default." + VAR,
@@ -79,6 +79,27 @@ ADD9 = {
  "C20": UNW + "(update / update_if closures incl. one that owns the taken value, write guards alive while unwinding, PartialEq / Hash / Clone / Ord of the element, for_each closures, transactions alive while unwinding, out-of-range calls, filter / filter_map / sort_by / sort_by_key callbacks on plain and batched streams, also while the adapter is built): no double drop, no use after drop, nothing alive at the end (leaks are tolerated only where imbl's own inline representation leaks on a panicking Clone)." + VAR,
 }
 
+# workloads added after the tenth round (DESIGN.md 14.12b)
+MAR = " Marathons: 20-24 histories of 20,000-220,000 operations on one long-lived object, judged by the same engine."
+ADD10 = {
+ "C01": MAR + " Quiet spells of 66,000-140,000 Pending polls without an update. Bystander objects (an unrelated observable, vector and adapter chain used between the operations of the history) and a task waker that outlives the objects.",
+ "C02": MAR + " Quiet spells and a worker-thread-long task waker (registrations remembered across objects meet the same waker again).",
+ "C03": MAR + " Round drop-vs-readers: the last owner goes away while other threads are inside next_now / next_ref_now / get / read / clone / poll / upgrade; runs under ThreadSanitizer in the quick tier.",
+ "C04": "Round drop-vs-readers (see C03), under ThreadSanitizer in the quick tier.",
+ "C05": MAR + " Two vectors with transactions open at the same time on one thread (interleaved operations, ended in any order). Bystander objects.",
+ "C06": MAR + " (subscribers that are never dropped: a stream that has kept up for more than 2^16 messages). The cross-thread round has a bursty writer and adapters on top of a third of the streams.",
+ "C07": MAR + " Two interleaved transactions on two vectors of one element type.",
+ "C08": "Small Miri pass (16 shards) in the quick tier; cross-thread round with a bursty writer.",
+ "C09": MAR + " (one adapter object per marathon; Tail/Skip also with a regular sliding-window workload).",
+ "C10": MAR, "C11": MAR + " (Sort marathons run on through the known finding F6).", "C12": MAR,
+ "C13": MAR + " Cross-thread round (bursty writer thread, subscriber threads watching through filter / head / tail on the batched stream).",
+ "C14": MAR + " Worker-thread-long task waker in one-waker mode.", "C15": MAR,
+ "C16": MAR + " Guard script 6 (subscribers polled under a write guard, woken, never polled again, owners dropped first); ASan over the sequential part in the quick tier.",
+ "C17": MAR, "C18": "Indices and lengths at the edges of usize in the enumerated diffs.",
+ "C19": MAR + " Storms of 66,000-90,000 clone/drop and upgrade/drop cycles on one observable.",
+ "C20": "Element size 8 bytes as a further build variant.",
+}
+
 checks = []
 for p in props:
     pid = p["id"]
@@ -89,6 +110,8 @@ for p in props:
         text = text + " " + ADD[pid]
     if pid in ADD9:
         text = text + " " + ADD9[pid]
+    if pid in ADD10:
+        text = text + " " + ADD10[pid].strip()
     checks.append({
         "property_id": pid,
         "quick_cmd": f"./check {pid} --tier quick",
@@ -118,7 +141,8 @@ m = {
   {"name": "thr", "path": "harness/src/engine_thr.rs", "serves_properties": ["C01","C02","C03","C04","C16"], "kind_free_text": "thread director forcing schedules at the __verif pause points; free-running rounds with injected yields; offline history checkers"},
   {"name": "misc", "path": "harness/src/runners_misc.rs", "serves_properties": ["C18","C20"], "kind_free_text": "exhaustive diff map/apply execution; bulk drop-accounting runs"},
   {"name": "unwind", "path": "harness/src/runners_unwind.rs", "serves_properties": ["C01","C03","C05","C06","C07","C08","C16","C19","C20"], "kind_free_text": "histories in which a user callback or a trait impl of the element type panics inside a library call and is caught; drop accounting plus what the properties say about the calls that follow"},
-  {"name": "pairs", "path": "harness/src/runners_pairs.rs", "serves_properties": ["C09","C14"], "kind_free_text": "two adapters driven by one limit observable (subscriber polled, then cloned), wake implication and view oracle per adapter"},
+  {"name": "pairs", "path": "harness/src/runners_pairs.rs", "serves_properties": ["C05","C07","C09","C14"], "kind_free_text": "two objects side by side: two adapters driven by one limit observable (subscriber polled, then cloned); two vectors with interleaved transactions"},
+  {"name": "long", "path": "harness/src/runners_long.rs", "serves_properties": ["C01","C02","C03","C05","C06","C07","C09","C10","C11","C12","C13","C14","C15","C16","C17","C19"], "kind_free_text": "marathons: tens of thousands of operations on one long-lived object, judged by the vec / obs / adp engines"},
   {"name": "adp", "path": "harness/src/engine_adp.rs", "serves_properties": ["C09","C10","C11","C12","C13","C14","C15","C20"], "kind_free_text": "adapter/chain executor with transparent taps, event log and per-stage oracles"},
  ],
  "checks": checks,
